@@ -113,3 +113,151 @@ Proof.
   pose proof (veq_length _ _ Ev) as Lv. split; [lia|].
   intros i Hi. apply veq_nth_iff in Ev. destruct Ev as [_ Ev]. rewrite (Ev i) by lia. apply Bn, Hi.
 Qed.
+
+(* ---------- any quantiser with finite per-client trees (incl. the rotated pipelines) ---------- *)
+Lemma aggregate_finite_is_wmean (qcl : list (qtree * Q)) n : qcl <> [] ->
+  Forall (fun c => length (concat (fst c)) = n) qcl ->
+  exists v, aggregate (lift_clients qcl) = Some (vlift v) /\
+            v =v= wmean_batch n (map (fun c => (snd c, concat (fst c))) qcl).
+Proof.
+  intros Hne Hn. unfold aggregate, lift_clients. rewrite map_map. cbn [fst snd].
+  match goal with |- context [tree_mean ?l] =>
+    assert (E : l = map lift_client (map (fun c : list (list Q) * Q => (concat (fst c), snd c)) qcl)) end.
+  { rewrite map_map. apply map_ext. intros c. unfold lift_client. cbn [fst snd]. rewrite concat_lift. reflexivity. }
+  rewrite E. destruct (tree_mean_is_wmean n (map (fun c => (concat (fst c), snd c)) qcl)) as (v & Hv & Ev).
+  - destruct qcl; [congruence|discriminate].
+  - unfold wfc. apply Forall_map. exact Hn.
+  - exists v. split; [exact Hv|]. rewrite map_map in Ev. exact Ev.
+Qed.
+
+Lemma all_some_inv {A} : forall (l : list (option A)) r, all_some l = Some r -> l = map Some r.
+Proof.
+  induction l as [|a l IH]; intros r H; [cbn in H; injection H as <-; reflexivity|].
+  change (all_some (a :: l)) with (match a, all_some l with Some x, Some r => Some (x :: r) | _, _ => None end) in H.
+  destruct a as [x|]; [|discriminate]. destruct (all_some l) as [r'|] eqn:E; [|discriminate].
+  injection H as <-. cbn [map]. f_equal. apply IH. reflexivity.
+Qed.
+
+(* the rotated pipelines return finite leaves whenever they are defined, and the rotated
+   aggregators are `aggregate` of the per-client pipeline results *)
+Lemma through_rotation_finite f s x y : through_rotation f s x = Some y -> exists yq, y = lift yq.
+Proof.
+  unfold through_rotation. destruct (lower x); [|discriminate]. destruct (qrot s l); [|discriminate].
+  destruct (lower (f (lift l0))); [|discriminate]. destruct (qinv s l1 _) as [w|]; [|discriminate].
+  cbn [option_map]. intros H. injection H as <-. exists w. reflexivity.
+Qed.
+
+Lemma drive_agg_unfold signs cl q :
+  all_some (map2 (fun c s => option_map (fun t => (t, snd c)) (drive_tree s (fst c))) cl signs) = Some q ->
+  drive_agg signs cl = aggregate q.
+Proof. intros H. unfold drive_agg. rewrite H. reflexivity. Qed.
+Lemma rusq_agg_unfold L signs cl us q :
+  all_some (map2 (fun c u => option_map (fun t => (t, snd c)) (rusq_tree L signs (fst c) u)) cl us) = Some q ->
+  rusq_agg L signs cl us = aggregate q.
+Proof. intros H. unfold rusq_agg. rewrite H. reflexivity. Qed.
+
+(* ---------- TernGrad aggregator ---------- *)
+Definition tleaf := (list Q * list Q * Q)%type.      (* leaf, its draws, its sigma *)
+Definition tl_leaf (x : tleaf) : list Q := fst (fst x).
+Definition tl_u (x : tleaf) : list Q := snd (fst x).
+Definition tl_s (x : tleaf) : Q := snd x.
+Definition tclient := (list tleaf * Q)%type.
+Definition tern_leaf_q (x : tleaf) : list Q := tern_q (tl_s x) (tl_leaf x) (tl_u x).
+Definition tern_leaf_clipped (x : tleaf) : list Q := map (tern_clipped_q (tl_s x)) (tl_leaf x).
+Definition tern_leaf_s (x : tleaf) : Q := qmax (map Qabs (tern_leaf_clipped x)).
+Definition tclient_ok (n : nat) (c : tclient) : Prop :=
+  Forall (fun x => tl_leaf x <> [] /\ length (tl_u x) = length (tl_leaf x)) (fst c) /\
+  length (concat (map tl_leaf (fst c))) = n.
+
+Lemma map2_combine_same {A B C D E} (F : B * C -> D -> E) (a : A -> B) (b : A -> C) (c : A -> D) (l : list A) :
+  map2 F (combine (map a l) (map b l)) (map c l) = map (fun x => F (a x, b x) (c x)) l.
+Proof. induction l as [|x l IH]; cbn; [reflexivity|]. f_equal. exact IH. Qed.
+
+Lemma tern_q_length sigma v u : length u = length v -> length (tern_q sigma v u) = length v.
+Proof. intros H. unfold tern_q. rewrite map2_length, map_length. lia. Qed.
+
+(* |q - clipped| <= s: the output is 0 or s * sign, the clipped value lies between *)
+Lemma tern_q_close sigma v u : v <> [] -> length u = length v ->
+  vclose (qmax (map Qabs (map (tern_clipped_q sigma) v))) (map (tern_clipped_q sigma) v) (tern_q sigma v u).
+Proof.
+  intros Hne Hu. apply vclose_nth_iff. rewrite map_length. split; [symmetry; apply tern_q_length, Hu|].
+  intros i Hi. unfold vnth.
+  destruct (tern_coord_spec sigma v i Hne Hi) as (Hs & Hx & t & Ht & Hts & Hout).
+  destruct (Hout u Hu) as (out & E & Hlen & O1 & O2).
+  assert (Eo : out = tern_q sigma v u).
+  { rewrite tern_lift in E by assumption. unfold lift in E.
+    apply (f_equal (map (fun o => match o with Some q => q | None => 0 end))) in E.
+    rewrite !map_map in E. cbn beta iota in E. rewrite !map_id in E. symmetry. exact E. }
+  subst out. set (vc := map (tern_clipped_q sigma) v) in *. set (s := qmax (map Qabs vc)) in *.
+  set (xc := nth i vc 0) in *.
+  pose proof (qsign_abs xc) as Hsa.
+  destruct (Qlt_le_dec (nth i u 0) t) as [H|H].
+  - rewrite (O2 H).
+    destruct (Q_dec xc 0) as [[Hn|Hp]|Hz].
+    + rewrite (proj2 (proj2 (qsign_spec xc)) Hn) in *. rewrite Qabs_neg in Hx by lra. apply Qabs_case; intros; lra.
+    + rewrite (proj1 (qsign_spec xc) Hp) in *. rewrite Qabs_pos in Hx by lra. apply Qabs_case; intros; lra.
+    + rewrite (proj1 (proj2 (qsign_spec xc)) Hz) in *. apply Qabs_case; intros; lra.
+  - rewrite (O1 H). revert Hx. apply Qabs_case; intros; apply Qabs_case; intros; lra.
+Qed.
+
+Lemma vclose_mono e e' a b : e <= e' -> vclose e a b -> vclose e' a b.
+Proof. intros He H. induction H as [|x y a b Hxy _ IH]; constructor; [lra|exact IH]. Qed.
+
+Definition tern_client_q (c : tclient) : list Q * Q := (concat (map tern_leaf_q (fst c)), snd c).
+Definition tern_client_ref (c : tclient) : Q * list Q := (snd c, concat (map tern_leaf_clipped (fst c))).
+
+Lemma tern_tree_lift (ls : list tleaf) : Forall (fun x => tl_leaf x <> [] /\ length (tl_u x) = length (tl_leaf x)) ls ->
+  tern_tree (map tl_s ls) (map lift (map tl_leaf ls)) (map tl_u ls) = map lift (map tern_leaf_q ls).
+Proof.
+  intros H. unfold tern_tree. rewrite (map_map tl_leaf lift).
+  rewrite (map2_combine_same (fun lu sg => tern sg (fst lu) (snd lu)) (fun x => lift (tl_leaf x)) tl_u tl_s).
+  rewrite map_map. apply map_ext_in. intros x Hx. rewrite Forall_forall in H. destruct (H x Hx) as [Hne _].
+  cbn [fst snd]. apply tern_lift, Hne.
+Qed.
+
+(* TernGrad aggregator = weighted mean of the per-client ternarised trees, coordinate-wise
+   within e of the weighted mean of the CLIPPED inputs, e bounding every leaf's level s *)
+Theorem tern_agg_spec n e (cl : list tclient) : cl <> [] -> Forall (tclient_ok n) cl -> 0 <= e ->
+  Forall (fun c => 0 <= snd c /\ Forall (fun x => tern_leaf_s x <= e) (fst c)) cl ->
+  exists v,
+    tern_agg (lift_clients (map (fun c => (map tl_leaf (fst c), snd c)) cl))
+             (map (fun c => map tl_s (fst c)) cl) (map (fun c => map tl_u (fst c)) cl) = Some (vlift v) /\
+    v =v= wmean_batch n (map swap (map tern_client_q cl)) /\
+    vclose e (wmean_batch n (map tern_client_ref cl)) v.
+Proof.
+  intros Hne Hok He Hc.
+  assert (E : tern_agg (lift_clients (map (fun c => (map tl_leaf (fst c), snd c)) cl))
+                (map (fun c => map tl_s (fst c)) cl) (map (fun c => map tl_u (fst c)) cl)
+              = tree_mean (map lift_client (map tern_client_q cl))).
+  { unfold tern_agg, aggregate, lift_clients. rewrite map_map.
+    cbn [fst snd].
+    rewrite (map2_combine_same (fun cu sg => (tern_tree sg (fst (fst cu)) (snd cu), snd (fst cu)))
+              (fun c : tclient => (map lift (map tl_leaf (fst c)), Some (snd c)))
+              (fun c => map tl_u (fst c)) (fun c => map tl_s (fst c))).
+    rewrite !map_map. f_equal. apply map_ext_in. intros c Hin. cbn [fst snd].
+    rewrite Forall_forall in Hok. destruct (Hok c Hin) as [Hl _].
+    rewrite tern_tree_lift by exact Hl. unfold lift_client, tern_client_q. cbn [fst snd].
+    rewrite concat_lift. reflexivity. }
+  assert (Wq : wfc n (map tern_client_q cl)).
+  { unfold wfc. apply Forall_map. eapply Forall_impl; [|exact Hok]. intros c [Hl Hn]. unfold tern_client_q. cbn [fst].
+    rewrite <- Hn. clear Hn. induction Hl as [|x ls [_ Hu] _ IH]; [reflexivity|].
+    cbn [map concat]. rewrite !app_length, IH. unfold tern_leaf_q. rewrite tern_q_length by exact Hu. reflexivity. }
+  destruct (tree_mean_is_wmean n (map tern_client_q cl)) as (v & Hv & Ev); [destruct cl; [congruence|discriminate]|exact Wq|].
+  exists v. rewrite E. split; [exact Hv|]. split; [exact Ev|].
+  assert (B : vclose e (wmean_batch n (map tern_client_ref cl)) (wmean_batch n (map swap (map tern_client_q cl)))).
+  { apply wmean_error_bound; [| |exact He|].
+    - unfold wf_clients. apply Forall_map. eapply Forall_impl; [|exact Hok]. intros c [Hl Hn]. unfold tern_client_ref. cbn [snd].
+      rewrite <- Hn. clear. induction (fst c) as [|x ls IH]; [reflexivity|]. cbn [map concat]. rewrite !app_length, IH.
+      unfold tern_leaf_clipped. rewrite map_length. reflexivity.
+    - apply wf_swap, Wq.
+    - rewrite map_map. clear Hne E Wq Hv Ev v. induction cl as [|c cl IH]; [constructor|].
+      inversion Hok; subst. inversion Hc; subst. destruct H1 as [Hl Hn]. destruct H3 as [Hw Hs].
+      cbn [map]. constructor; [|apply IH; assumption].
+      unfold tern_client_ref, tern_client_q, swap. cbn [fst snd]. split; [reflexivity|]. split; [exact Hw|].
+      clear Hn. induction Hl as [|x ls [Hne Hu] _ IHl]; [constructor|].
+      inversion Hs; subst. cbn [map concat]. apply Forall2_app; [|apply IHl; assumption].
+      apply (vclose_mono (tern_leaf_s x)); [assumption|]. apply tern_q_close; assumption. }
+  apply vclose_nth_iff in B. destruct B as [Bl Bn]. apply vclose_nth_iff.
+  pose proof (veq_length _ _ Ev) as Lv. split; [lia|].
+  intros i Hi. apply veq_nth_iff in Ev. destruct Ev as [_ Ev]. rewrite (Ev i) by lia. apply Bn, Hi.
+Qed.
